@@ -50,7 +50,8 @@ type ptrInfo struct {
 	addr   string // for mem regions
 	path   []pathStep
 	cell   types.Type // type of the value stored in the region cell
-	arrLen int64      // >0: this pointer denotes a flattened array of arrLen elements at addr in region
+	arrLen int64      // number of elements when flat
+	flat   bool       // this pointer denotes an array flattened into element memory at addr
 }
 
 type Obligation struct {
@@ -75,6 +76,16 @@ type Obligation struct {
 	QueryBytes int
 	QueryFile  string
 	enc        *Enc
+	allowed    map[int]bool
+	siblings   []*Obligation
+	parent     *Obligation
+}
+
+func (o *Obligation) src() string {
+	if o.Src == "" && o.parent != nil {
+		return o.parent.Src
+	}
+	return o.Src
 }
 
 type paramModel struct {
@@ -116,14 +127,20 @@ type Enc struct {
 	ghostUsed    map[string]bool
 	axiomAsserts []string
 	axiomNames   []string
-	products     [][2]string
+	products     []prodEntry
 	regionElem   map[string][2]string
+	outTag       []int
+	usedMarks    map[string]int
+	assumedPre   map[string]string
+	curTag       int
+	ntag         int
+	curAllowed   map[int]bool
 }
 
 func newEnc(p *Prog, fn *ssa.Function, spec *FuncSpec) *Enc {
 	e := &Enc{p: p, st: newSortTable(), regionSort: map[string]string{}, regionConst: map[string]string{}, root: fn, rootSpec: spec,
 		abstractions: map[string]bool{}, strLits: map[string]string{}, oblNames: map[string]int{},
-		usedTrusted: map[string]string{}, usedHavoc: map[string]bool{}, usedInline: map[string]bool{}, usedEffFree: map[string]bool{}, tupleVals: map[tupleKey]string{}, ghostUsed: map[string]bool{}, regionElem: map[string][2]string{}}
+		usedTrusted: map[string]string{}, usedHavoc: map[string]bool{}, usedInline: map[string]bool{}, usedEffFree: map[string]bool{}, tupleVals: map[tupleKey]string{}, ghostUsed: map[string]bool{}, regionElem: map[string][2]string{}, usedMarks: map[string]int{}, assumedPre: map[string]string{}}
 	e.regionSort["heapTop"] = "Int"
 	return e
 }
@@ -132,10 +149,15 @@ func (e *Enc) errf(format string, args ...interface{}) {
 	e.errs = append(e.errs, fmt.Sprintf(format, args...))
 }
 
+func (e *Enc) emit(line string) {
+	e.out = append(e.out, line)
+	e.outTag = append(e.outTag, e.curTag)
+}
+
 func (e *Enc) fresh(prefix, sortName string) string {
 	e.nfresh++
 	n := fmt.Sprintf("%s!%d", sanitize(prefix), e.nfresh)
-	e.out = append(e.out, fmt.Sprintf("(declare-const %s %s)", n, sortName))
+	e.emit(fmt.Sprintf("(declare-const %s %s)", n, sortName))
 	return n
 }
 
@@ -145,7 +167,7 @@ func (e *Enc) memRange(region, c string) {
 	if !ok {
 		return
 	}
-	e.out = append(e.out, fmt.Sprintf("(assert (forall ((zi Int)) (! (and (<= %s (select %s zi)) (<= (select %s zi) %s)) :pattern ((select %s zi)))))", rg[0], c, c, rg[1], c))
+	e.emit(fmt.Sprintf("(assert (forall ((zi Int)) (! (and (<= %s (select %s zi)) (<= (select %s zi) %s)) :pattern ((select %s zi))))) ;;bg", rg[0], c, c, rg[1], c))
 }
 
 func sanitize(s string) string {
@@ -165,7 +187,7 @@ func (e *Enc) assume(t string) {
 	if t == "" || t == "true" {
 		return
 	}
-	e.out = append(e.out, "(assert "+t+")")
+	e.emit("(assert " + t + ")")
 }
 
 func (e *Enc) define(prefix, sortName, term string) string {
@@ -235,12 +257,15 @@ func (e *Enc) get(s *state, region string) string {
 	}
 	c, ok := e.regionConst[key]
 	if !ok {
+		saved := e.curTag
+		e.curTag = 0 // memoised across blocks: must be visible everywhere
 		c = e.fresh("R."+region+".e"+key[strings.LastIndex(key, "@")+1:], so)
 		e.regionConst[key] = c
 		e.memRange(region, c)
 		if region == "heapTop" {
 			e.assume(app("<=", "1", c))
 		}
+		e.curTag = saved
 	}
 	s.regs[region] = c
 	return c
@@ -473,6 +498,11 @@ func (p *Prog) effects(fn *ssa.Function, stack map[*ssa.Function]bool) *effSet {
 	}
 	stack[fn] = true
 	defer delete(stack, fn)
+	if sp, ok := p.specs.Funcs[name]; ok {
+		for _, m := range sp.GhostMod {
+			es.regs[m] = true
+		}
+	}
 	for _, b := range fn.Blocks {
 		for _, ins := range b.Instrs {
 			p.instrEffects(ins, es, stack)
